@@ -4,6 +4,7 @@ CONSTANTS
   Deviations = {"AddNoiseHalvesArray"}
 INVARIANT TypeOK
 INVARIANT NeverHalved
+INVARIANT SimMisfitFollowsNoise
 PROPERTY OnlyAssignmentsChangeNoise
 PROPERTY SelectIsSubcube
 PROPERTY NaNMonotone
